@@ -31,11 +31,11 @@ Proof. exact hasAttribute_case. Qed.
 Theorem C08_case_get : forall n s, getAttribute (lower n) s = getAttribute n s.
 Proof. exact getAttribute_case. Qed.
 (* the views decode the one mapping *)
-Theorem C08_view_getAttribute : forall n s, plainp (lower n) = true -> is_binary (lower n) = false ->
+Theorem C08_view_getAttribute : forall n s, plainp (lower n) = true -> is_binary (lower n) = false -> is_binary_string (lower n) = false ->
   snd (getAttribute n s) = match od_get (lower n) (plain s) with Some v => raw_value (sync s) v | None => PNone end
   /\ fst (getAttribute n s) = sync s.
 Proof. exact getAttribute_plain. Qed.
-Theorem C08_view_getAttribute_boolean : forall n s, plainp (lower n) = true -> is_binary (lower n) = true ->
+Theorem C08_view_getAttribute_boolean : forall n s, plainp (lower n) = true -> is_binary (lower n) = true -> is_binary_string (lower n) = false ->
   getAttribute n s = (s, match od_get (lower n) (plain s) with
                          | Some v => if truthy (raw_value s v) then raw_value s v else PTrue
                          | None => PFalse end).
